@@ -215,7 +215,7 @@ func (p *PX) term(v ssa.Value, fr *pxFrame, st *pxState) *Term {
 		}
 	case *ssa.Convert:
 		a := p.term(x.X, fr, st)
-		t := &Term{K: TConv, A: a, T: v.Type(), key: "conv:" + types.TypeString(v.Type(), nil) + "(" + a.key + ")"}
+		t := &Term{K: TConv, A: a, V: v, T: v.Type(), key: "conv:" + types.TypeString(v.Type(), nil) + "(" + a.key + ")"}
 		if a.K == TConst {
 			var fl evalFlags
 			if s := p.f.evalStruct(t, Env{}, &fl); s != nil && s.Card().Cmp(one) == 0 {
